@@ -158,6 +158,10 @@ func (c *CL) ConnClosed() bool { return c.conn.IsClosed() }
 // SetResponder installs a reactive gateway: its answers become readable the
 // moment the client has written the datagram.
 func (c *CL) SetResponder(f func(p refsn.Pkt, nth int) [][]byte) {
+	if f == nil {
+		c.conn.Responder = nil
+		return
+	}
 	n := 0
 	c.conn.Responder = func(b []byte) [][]byte {
 		p, err := refsn.Decode(b)
